@@ -279,6 +279,8 @@ pub struct Report {
     pub also: BTreeMap<String, (u64, String)>,
     pub harness_errors: Vec<String>,
     pub replay_dir: String,
+    /// (property, message) of the most recent direct_violation call (for transcripts)
+    pub last_direct: Option<(String, String)>,
 }
 
 impl Report {
@@ -371,6 +373,7 @@ impl Report {
             }
             return false;
         }
+        self.last_direct = Some((prop.to_string(), msg.to_string()));
         if prop == self.prop {
             if self.violations.len() < 5 {
                 let _ = std::fs::create_dir_all(format!("{}/{}", self.replay_dir, prop));
